@@ -42,7 +42,9 @@ SCENARIOS = {
                    _man('proid.db', 1, 1, 1, traits=['t1'], data_retention_timeout='5s'),
                    _man('other.app', 1, 1, 1, lease='5d', data_retention_timeout='30d'),
                    dict(name='proid.web', demand=[512, 0, 512], affinity='web',
-                        identity_group='proid.g1', data_retention_timeout='1s')],
+                        identity_group='proid.g1', data_retention_timeout='1s'),
+                   dict(name='proid.lim', demand=[512, 0, 512], affinity='lim',
+                        affinity_limits={'rack': 1, 'server': 1}, data_retention_timeout='2s')],
         groups={'proid.g1': 3},
         apps=['a1', 'a2', 'a3', 'a4']),
 }
@@ -179,6 +181,38 @@ def gen_identity(scn, rng, depth):
             hist.append(('Restart', []))
     hist.append(('Cycle', []))
     hist.append(('Restart', []))
+    return hist
+
+
+def gen_pending(scn, rng, depth):
+    """Focused L2 histories for Master._check_pending_start (extension beyond the
+    listed properties): instances placed, some reported running, the periodic
+    integrity check called at intervals around the 5 minute start interval."""
+    napps = rng.randrange(1, len(scn['apps']) + 1)
+    apps = list(scn['apps'][:napps])
+    hist = [('CreateApp', [a, rng.randrange(len(scn['aprofiles'])) + 1]) for a in apps]
+    hist.append(('Cycle', []))
+    for _ in range(depth):
+        r = rng.random()
+        if r < 0.30:
+            hist.append(('Integrity', []))
+        elif r < 0.50:
+            hist.append(('Tick', [rng.choice([100, 200, 301, 301])]))
+        elif r < 0.65:
+            hist.append(('Running', [rng.choice(apps)]))
+        elif r < 0.72:
+            hist.append(('Stopped', [rng.choice(apps)]))
+        elif r < 0.82:
+            hist.append(('Cycle', []))
+        elif r < 0.88:
+            s = rng.choice(sorted(scn['server_init']))
+            hist.append(('ServerState', [s, rng.choice(['up', 'down', 'frozen']), []]))
+        elif r < 0.94:
+            hist.append(('DeleteApp', [rng.choice(apps)]))
+        else:
+            hist.append(('SetPrio', [rng.choice(apps), rng.choice([1, 50])]))
+    hist.append(('Integrity', []))
+    hist.append(('Cycle', []))
     return hist
 
 
